@@ -12,7 +12,13 @@ T6  self-delimitation: accepting states of the tagged union of the as-built even
 T7  field order: the n-th number of the payload reaches the documented field (MIR: order of Iterator::next calls feeding each aggregate
     field), the four report grammars equal their documented forms and the payload slice starts/ends at the numbers
 
-Everything is read from mir.json / src.json of the current tree; the repository is never run."""
+Everything is read from mir.json / src.json of the current tree; the repository is never run.
+
+Robustness: wherever a clause is about the *value* a small function denotes (T2 from_usize, T3 named colours and palette, T4 kitty modifiers,
+T5 UTF-8 assembly and the mouse table, T8 colour components) the function is evaluated as a whole by sa.consteval.StdInterp (T5-UTF8: on symbolic
+bytes, every result bit a constant or one input bit through sa.bitflow), so helper extraction, loop <-> iterator chain, if-chain <-> match, shifts <->
+divisions, clamp <-> min, named constants and renamed locals do not change the verdict; the older shape readers remain as fallback / diagnostics.
+T5-MOUSE-BITS follows the button value through plain copies and into crate-local helpers; T7 retries on the body with helpers inlined (prog.inlined)."""
 import json
 import os
 import re
@@ -20,7 +26,7 @@ import re
 from ..mir import call_matches
 from ..flow import expr, value_variants, arg_place
 from ..src import find_all, expr_text, lit_int
-from ..consteval import Interp, Unsupported, StructV, EnumV, NONE, some
+from ..consteval import StdInterp, Frame, Unsupported, Panic, StructV, EnumV, NONE, some
 from .. import grammar, regex, bitflow as bf
 
 REFDIR = os.path.join(os.path.dirname(os.path.dirname(os.path.abspath(__file__))), "refs")
@@ -99,49 +105,95 @@ def _numbers_model(args):
     return out
 
 
-class _It(Interp):
-    STD = {"u32::MAX": 0xFFFFFFFF, "u8::MAX": 255, "usize::MAX": (1 << 64) - 1}
+def _number_model(args):
+    """number_decode(data): decimal value of an all-digit byte string, None otherwise / on overflow of usize"""
+    data = list(args[0])
+    if not all(isinstance(c, int) and 48 <= c <= 57 for c in data):
+        return NONE
+    v = 0
+    for c in data:
+        v = v * 10 + c - 48
+    return some(v) if v < (1 << 64) else NONE
+
+
+class _It(StdInterp):
+    """+ fieldless user enums: discriminants (`*mode as usize`) and bare variant names inside the enum's own impl (`use Enum::*`)"""
+    enum_discr = None          # {enum name: {variant: discriminant}}, filled from MIR (prog.enum_variants)
 
     def _path_value(self, p, fr):
-        if p in self.STD and p not in fr.vars:
-            return self.STD[p]
+        if "::" not in p and p not in fr.vars and fr.self_ty in self._enums and p in self._enums[fr.self_ty]:
+            return EnumV(fr.self_ty, p)
         return super()._path_value(p, fr)
 
-    def place(self, e, fr):
-        if e.get("k") == "index" and isinstance(e.get("i"), dict) and e["i"].get("k") == "range":
-            b = self.place(e["e"], fr)
-            r = e["i"]
-            lo = self.eval(r["lo"], fr) if r.get("lo") else 0
-            hi = (self.eval(r["hi"], fr) + (1 if r["incl"] else 0)) if r.get("hi") else (len(b) if isinstance(b, (list, bytes)) else None)
-            if not isinstance(b, (list, bytes)) or not isinstance(lo, int) or not isinstance(hi, int) or not (0 <= lo <= hi <= len(b)):
-                raise Unsupported("slice range")
-            return list(b[lo:hi])
-        return super().place(e, fr)
-
-    def _e_mcall(self, e, fr):
-        if e["m"] == "contains" and len(e.get("args") or []) == 1:
-            r = e["recv"]
-            while r.get("k") == "paren":
-                r = r["e"]
-            if r.get("k") == "range" and r.get("lo") and r.get("hi"):
-                lo, hi = self.eval(r["lo"], fr), self.eval(r["hi"], fr)
-                v = self.place(e["args"][0], fr)
-                if all(isinstance(x, int) and not isinstance(x, bool) for x in (lo, hi, v)):
-                    return lo <= v <= hi if r["incl"] else lo <= v < hi
-        return super()._e_mcall(e, fr)
+    def _e_cast(self, e, fr):
+        v = self.eval(e["e"], fr)
+        if isinstance(v, EnumV) and self.enum_discr and v.ty in self.enum_discr and v.name in self.enum_discr[v.ty]:
+            v = self.enum_discr[v.ty][v.name]
+        return super()._e_cast({"k": "cast", "e": {"k": "$value", "v": v}, "ty": e["ty"]}, fr)
 
 
-def _interp(src):
-    it = _It(src)
+class _BitProblem(Unsupported):
+    """the evaluated code leaves the exact bit-provenance operator set of sa.bitflow"""
+
+
+class _BitIt(_It):
+    """values may be sa.bitflow.Val (one provenance per bit): operators and casts on them are exact bit layouts or an error"""
+
+    def _bf(self, expr, env):
+        try:
+            v = bf.evaluate(expr, env)
+        except bf.BitflowError as ex:
+            raise _BitProblem(str(ex))
+        return v.v if isinstance(v, bf.Flex) else v
+
+    def binop(self, op, a, b, memo=True):
+        if isinstance(a, bf.Val) or isinstance(b, bf.Val):
+            if not all(isinstance(x, bf.Val) or (isinstance(x, int) and not isinstance(x, bool)) for x in (a, b)):
+                raise _BitProblem("operator %s on source bits and a %s" % (op, type(b if isinstance(a, bf.Val) else a).__name__))
+            if op in ("==", "!=", "<", "<=", ">", ">=", "&&", "||"):
+                raise _BitProblem("the value is compared (%s) before it is assembled: control flow depends on source bits" % op)
+            return self._bf({"k": "bin", "op": op, "l": {"k": "path", "p": "$a"}, "r": {"k": "path", "p": "$b"}, "line": 0}, {"$a": a, "$b": b})
+        return super().binop(op, a, b, memo)
+
+    def _e_cast(self, e, fr):
+        v = self.eval(e["e"], fr)
+        if isinstance(v, bf.Val):
+            return self._bf({"k": "cast", "e": {"k": "path", "p": "$a"}, "ty": e["ty"], "line": 0}, {"$a": v})
+        return _It._e_cast(self, {"k": "cast", "e": {"k": "$value", "v": v}, "ty": e["ty"]}, fr)
+
+    def _e_call(self, e, fr):
+        f = e["f"]
+        if f.get("k") == "path" and f["p"].endswith("::from") and f["p"][:-6].split("::")[-1] in bf.TYPES and len(e.get("args") or []) == 1:
+            v = self.eval(e["args"][0], fr)
+            if isinstance(v, bf.Val):
+                return self._bf({"k": "call", "f": {"k": "path", "p": f["p"].split("::")[-2] + "::from"}, "args": [{"k": "path", "p": "$a"}], "line": 0}, {"$a": v})
+            return super()._e_call({"k": "call", "f": f, "args": [{"k": "$value", "v": v}]}, fr)
+        return super()._e_call(e, fr)
+
+
+def _std_externs(it):
     it.extern_fns["numbers_decode"] = _numbers_model
+    it.extern_fns["number_decode"] = _number_model
     it.extern_methods["next"] = lambda recv, args: (some(recv.pop(0)) if recv else NONE) if isinstance(recv, list) else _unsup("next on a non-modelled iterator")
     it.extern_methods["checked_sub"] = lambda recv, args: some(recv - args[0]) if recv >= args[0] else NONE
-    it.extern_fns["char::from_u32"] = lambda a: some(("char", a[0])) if (0 <= a[0] < 0xD800 or 0xE000 <= a[0] <= 0x10FFFF) else NONE
     it.extern_fns["KeyName::F"] = lambda a: ("KeyName::F", a[0])
     it.extern_fns["KeyName::Char"] = lambda a: ("KeyName::Char", a[0])
     it.extern_fns["RGBA::new"] = lambda a: ("RGBA",) + tuple(a)
     for n in ("Mouse", "CursorPosition", "Size", "Key"):
         it.extern_fns["TerminalEvent::" + n] = (lambda n: lambda a: ("TerminalEvent::" + n, a[0]))(n)
+    return it
+
+
+def _interp(src):
+    it = _std_externs(_It(src))
+    it.extern_fns["char::from_u32"] = lambda a: some(("char", a[0])) if (0 <= a[0] < 0xD800 or 0xE000 <= a[0] <= 0x10FFFF) else NONE
+    return it
+
+
+def _bit_interp(src):
+    it = _std_externs(_BitIt(src))
+    it.extern_fns["char::from_u32"] = lambda a: some(("char", a[0]))           # the Some case: which scalar value the assembled bits denote
+    it.extern_fns["char::from_u32_unchecked"] = lambda a: ("char", a[0])
     return it
 
 
@@ -471,68 +523,147 @@ def _deref_source(b, l):
     return p["l"]
 
 
-def t2(ctx):
+class _Recorder:
+    """buffers instance / violation / anchor calls of a diagnostic pass so that they can be replayed or dropped"""
+
+    def __init__(self):
+        self.items = []
+
+    def instance(self, *a, **k):
+        self.items.append(("instance", a, k))
+
+    def violation(self, *a, **k):
+        self.items.append(("violation", a, k))
+
+    def anchor(self, *a, **k):
+        self.items.append(("anchor", a, k))
+
+    def note(self, *a, **k):
+        self.items.append(("note", a, k))
+
+    def replay(self, ctx):
+        for kind, a, k in self.items:
+            getattr(ctx, kind)(*a, **k)
+
+
+def _t2_by_shape(ctx, prog, enum_path, fnp, b, variants, example):
+    """the MIR shape of the lookup loop: candidate list, comparison with the discriminant, returned element (diagnostics / fallback)"""
+    iters = [t for bb, t in b.calls() if call_matches(t, r"slice::<impl \[T\]>::iter$")]
+    listed = set()
+    if len(iters) == 1:
+        listed = value_variants(b, iters[0]["args"][0])
+    if not listed:
+        ctx.anchor("T2-FROM-USIZE", fnp + "/list", "the array of candidates iterated by %s was not found" % fnp)
+        return
+    for name, disc in variants:
+        ok = (enum_path + "::" + name) in listed
+        ctx.instance("T2-FROM-USIZE", {"fn": fnp, "variant": name, "discriminant": disc, "listed": ok})
+        if not ok:
+            ctx.violation("T2-FROM-USIZE", fnp, "missing-" + name,
+                          "%s::%s (= %s) is not in the list from_usize searches: the report %s is not decoded (DecModeMatcher::decode returns None, the bytes come out as Raw)" % (
+                              enum_path.split("::")[-1], name, disc, example % int(disc)), sites=[b.loc])
+    for x in sorted(listed):
+        if x.rsplit("::", 1)[0] != enum_path:
+            ctx.violation("T2-FROM-USIZE", fnp, "foreign-" + x.split("::")[-1], "from_usize lists %s which is not a %s" % (x, enum_path), sites=[b.loc])
+    # comparison and returned element
+    eqs = [(i, s["rv"]) for i, si, s in b.assigns() if s["rv"]["k"] == "bin" and s["rv"]["op"] == "Eq"]
+    cmp_ok = False
+    ret_ok = False
+    elem = None
+    if len(eqs) == 1:
+        rv = eqs[0][1]
+        for x, y in ((rv["a"], rv["b"]), (rv["b"], rv["a"])):
+            lx, ly = _bare(x), _bare(y)
+            if lx is None or ly is None or _chase_copy(b, lx) != 1:
+                continue
+            d = _single_def(b, ly)
+            if d is None or d[1] == "term" or d[2]["k"] != "cast" or d[2].get("ty") != "usize":
+                continue
+            ld = _bare(d[2]["a"])
+            dd = _single_def(b, ld) if ld is not None else None
+            if dd is None or dd[1] == "term" or dd[2]["k"] != "discr" or dd[2].get("of") != enum_path or dd[2]["place"]["p"]:
+                continue
+            e = _deref_source(b, dd[2]["place"]["l"])
+            if e is not None and _element_of(b, e) is not None:
+                cmp_ok, elem = True, e
+    for i, si, s in b.assigns():
+        rv = s["rv"]
+        if s["place"]["l"] == 0 and not s["place"]["p"] and rv["k"] == "agg" and rv.get("variant") == "Some":
+            l = _bare(rv["fields"][0])
+            ret_ok = l is not None and elem is not None and _deref_source(b, l) == elem
+    ctx.instance("T2-FROM-USIZE", {"fn": fnp, "compares": "code == discriminant(element) as usize", "ok": cmp_ok})
+    ctx.instance("T2-FROM-USIZE", {"fn": fnp, "returns": "Some(element that compared equal)", "ok": ret_ok})
+    if not cmp_ok:
+        ctx.violation("T2-FROM-USIZE", fnp, "comparison", "the argument is not compared with `*element as usize` (the enumerator's discriminant) of the iterated list", sites=[b.loc])
+    if not ret_ok:
+        ctx.violation("T2-FROM-USIZE", fnp, "returned-element", "from_usize does not return the element whose discriminant matched", sites=[b.loc])
+
+
+def _t2_by_value(ctx, it, enum_path, variants, fnp, b):
+    """from_usize evaluated for every code 0..=max discriminant+2 (and a few large ones): Some(the enumerator with that discriminant) / None.
+    -> None when everything agrees, (kind, variant name, message) for the first disagreement; raises Unsupported when not evaluable"""
+    src = ctx.src
+    ename = enum_path.split("::")[-1]
+    r = src.fn("from_usize", impl_self="^%s$" % re.escape(ename))
+    if r is None:
+        raise Unsupported("fn %s::from_usize not found in src.json" % ename)
+    dmap = {}
+    for n, d in variants:
+        dmap.setdefault(int(d), n)
+    if it.enum_discr is None:
+        it.enum_discr = {}
+    it.enum_discr[ename] = {n: int(d) for n, d in variants}
+    top = max(dmap) + 2
+    for code in list(range(0, top + 1)) + [1 << 16, 1 << 32, (1 << 64) - 1]:
+        got = it.call_item(r[1], ename, [code], r[0], memo=False)
+        want = some(EnumV(ename, dmap[code])) if code in dmap else NONE
+        if got != want:
+            if code in dmap and got == NONE:
+                return ("missing", dmap[code], "%s::from_usize(%d) is None: %s (= %d) is not found" % (ename, code, dmap[code], code))
+            if code in dmap:
+                return ("returned-element", dmap[code], "%s::from_usize(%d) returns %r, the enumerator with that discriminant is %s" % (ename, code, got, dmap[code]))
+            return ("comparison", None, "%s::from_usize(%d) returns %r although no enumerator has that discriminant" % (ename, code, got))
+    return None
+
+
+def t2(ctx, it=None):
     prog = ctx.prog
     ref = _ref("xterm_keys.json")
     ctx.rule("T2-FROM-USIZE", "DecMode/DecModeStatus::from_usize: every enumerator is listed, the code is compared with the discriminant, the matching element is returned", floor=18)
     ctx.rule("T2-DEC-NUMBERS", "discriminants of DecMode / DecModeStatus are the DEC private mode numbers / DECRPM status values", floor=14)
     for enum_path, refmap in (("terminal::DecMode", ref["dec_private_modes"]["modes"]), ("terminal::DecModeStatus", ref["decrpm_status"]["values"])):
         fnp = enum_path + "::from_usize"
-        b = prog.body(fnp)
+        b = prog.inlined(fnp)
         variants = prog.enum_variants(enum_path)
         if b is None or not variants:
             ctx.anchor("T2-FROM-USIZE", fnp)
             continue
-        iters = [t for bb, t in b.calls() if call_matches(t, r"slice::<impl \[T\]>::iter$")]
-        listed = set()
-        if len(iters) == 1:
-            listed = value_variants(b, iters[0]["args"][0])
-        if not listed:
-            ctx.anchor("T2-FROM-USIZE", fnp + "/list", "the array of candidates iterated by %s was not found" % fnp)
-            continue
         example = {"terminal::DecMode": "ESC[?%d;1$y", "terminal::DecModeStatus": "ESC[?25;%d$y"}[enum_path]
-        for name, disc in variants:
-            ok = (enum_path + "::" + name) in listed
-            ctx.instance("T2-FROM-USIZE", {"fn": fnp, "variant": name, "discriminant": disc, "listed": ok})
-            if not ok:
-                ctx.violation("T2-FROM-USIZE", fnp, "missing-" + name,
-                              "%s::%s (= %s) is not in the list from_usize searches: the report %s is not decoded (DecModeMatcher::decode returns None, the bytes come out as Raw)" % (
-                                  enum_path.split("::")[-1], name, disc, example % int(disc)), sites=[b.loc])
-        for x in sorted(listed):
-            if x.rsplit("::", 1)[0] != enum_path:
-                ctx.violation("T2-FROM-USIZE", fnp, "foreign-" + x.split("::")[-1], "from_usize lists %s which is not a %s" % (x, enum_path), sites=[b.loc])
-        # comparison and returned element
-        eqs = [(i, s["rv"]) for i, si, s in b.assigns() if s["rv"]["k"] == "bin" and s["rv"]["op"] == "Eq"]
-        cmp_ok = False
-        ret_ok = False
-        elem = None
-        if len(eqs) == 1:
-            rv = eqs[0][1]
-            for x, y in ((rv["a"], rv["b"]), (rv["b"], rv["a"])):
-                lx, ly = _bare(x), _bare(y)
-                if lx is None or ly is None or _chase_copy(b, lx) != 1:
-                    continue
-                d = _single_def(b, ly)
-                if d is None or d[1] == "term" or d[2]["k"] != "cast" or d[2].get("ty") != "usize":
-                    continue
-                ld = _bare(d[2]["a"])
-                dd = _single_def(b, ld) if ld is not None else None
-                if dd is None or dd[1] == "term" or dd[2]["k"] != "discr" or dd[2].get("of") != enum_path or dd[2]["place"]["p"]:
-                    continue
-                e = _deref_source(b, dd[2]["place"]["l"])
-                if e is not None and _element_of(b, e) is not None:
-                    cmp_ok, elem = True, e
-        for i, si, s in b.assigns():
-            rv = s["rv"]
-            if s["place"]["l"] == 0 and not s["place"]["p"] and rv["k"] == "agg" and rv.get("variant") == "Some":
-                l = _bare(rv["fields"][0])
-                ret_ok = l is not None and elem is not None and _deref_source(b, l) == elem
-        ctx.instance("T2-FROM-USIZE", {"fn": fnp, "compares": "code == discriminant(element) as usize", "ok": cmp_ok})
-        ctx.instance("T2-FROM-USIZE", {"fn": fnp, "returns": "Some(element that compared equal)", "ok": ret_ok})
-        if not cmp_ok:
-            ctx.violation("T2-FROM-USIZE", fnp, "comparison", "the argument is not compared with `*element as usize` (the enumerator's discriminant) of the iterated list", sites=[b.loc])
-        if not ret_ok:
-            ctx.violation("T2-FROM-USIZE", fnp, "returned-element", "from_usize does not return the element whose discriminant matched", sites=[b.loc])
+        # (1) the value: from_usize evaluated over every code up to the largest discriminant (whichever way the lookup is written)
+        verdict = "?"
+        if it is not None:
+            try:
+                verdict = _t2_by_value(ctx, it, enum_path, variants, fnp, b)
+            except (Unsupported, TypeError, KeyError, ValueError) as ex:
+                ctx.note("T2: %s is not evaluable (%s): its MIR is read instead" % (fnp, ex))
+        if verdict is None:
+            for name, disc in variants:
+                ctx.instance("T2-FROM-USIZE", {"fn": fnp, "variant": name, "discriminant": disc, "listed": True, "by": "evaluation of from_usize(%s)" % disc})
+            ctx.instance("T2-FROM-USIZE", {"fn": fnp, "compares": "from_usize(code) is Some exactly for the discriminants (all codes 0..=max+2 evaluated)", "ok": True})
+            ctx.instance("T2-FROM-USIZE", {"fn": fnp, "returns": "Some(the enumerator with that discriminant)", "ok": True})
+        else:
+            rec = _Recorder()
+            _t2_by_shape(rec, prog, enum_path, fnp, b, variants, example)
+            precise = [v for v in rec.items if v[0] == "violation"]
+            if verdict == "?" or precise:
+                rec.replay(ctx)              # not evaluable: the shape decides (fail closed); evaluable and wrong: the shape names the defect
+            else:
+                for name, disc in variants:
+                    ctx.instance("T2-FROM-USIZE", {"fn": fnp, "variant": name, "discriminant": disc, "by": "evaluation"})
+            if verdict != "?" and not precise:
+                kind, vname, msg = verdict
+                ctx.violation("T2-FROM-USIZE", fnp, (kind + "-" + vname) if kind == "missing" else kind, msg + (
+                    ": the report %s is not decoded" % (example % int(dict(variants)[vname])) if kind == "missing" else ""), sites=[b.loc])
         # discriminants against the DEC numbers
         dmap = {n: int(d) for n, d in variants}
         for num, r in sorted(refmap.items(), key=lambda kv: int(kv[0])):
@@ -628,74 +759,93 @@ def t3(ctx, it):
         for k in range(8):
             want[base + k] = (role, off + k)
     sf = src.fn("sgr_face", file=DEC)
+    # (1) the value: sgr_face evaluated as a whole on the single parameter `code` - which colour field is set, to which COLORS entry
+    by_eval = None
+    if sf is not None and colors is not None:
+        by_eval = {}
+        try:
+            for code in range(256):
+                face = it.call_item(sf[1], None, [list(str(code).encode())], DEC, memo=False)
+                if not isinstance(face, StructV):
+                    raise Unsupported("sgr_face does not return a struct")
+                setc = [(fname, v[1]) for fname, v in face.fields.items()
+                        if isinstance(v, tuple) and not isinstance(v, EnumV) and len(v) == 2 and v[0] == "Some" and isinstance(v[1], tuple) and v[1][:1] == ("RGBA",)]
+                if not setc:
+                    by_eval[code] = None
+                elif len(setc) == 1:
+                    idxs = [i for i, c in enumerate(colors) if ("RGBA",) + c == setc[0][1]]
+                    by_eval[code] = (setc[0][0], idxs[0] if len(idxs) == 1 else "RGBA%s" % (setc[0][1][1:],))
+                else:
+                    by_eval[code] = ("+".join(f for f, _ in setc), "several")
+        except Unsupported as ex:
+            ctx.note("T3-NAMED: sgr_face is not evaluable as a whole (%s): its match arms are read instead" % ex)
+            by_eval = None
+    # (2) fallback, the shape: the arm of the command match selected by first-match semantics
     mt = None
-    if sf is not None:
+    if by_eval is None and sf is not None:
         cands = [n for n in find_all(sf[1]["body"], lambda n: n.get("k") == "match")
                  if sum(1 for a in n["arms"] if find_all(a["body"], lambda x: x.get("k") == "index" and x["e"].get("p") == "COLORS")) >= 2]
         if len(cands) == 1:
             mt = cands[0]
-    if mt is None:
+    if by_eval is None and mt is None:
         ctx.anchor("T3-NAMED", "decoder::sgr_face/match")
     else:
-        site = ["%s:%d" % (DEC, mt["line"])]
+        site = ["%s:%d" % (DEC, (mt or sf[1])["line"])]
         for code in range(256):
-            sel = None
-            binds = {}
-            try:
-                for arm in mt["arms"]:
-                    binds = {}
-                    if arm.get("guard") is None and it.match_pat(arm["pat"], some(code), binds):
-                        sel = arm
-                        break
-                    if arm.get("guard") is not None:
-                        raise Unsupported("guarded arm")
-            except Unsupported as ex:
-                ctx.anchor("T3-NAMED", "decoder::sgr_face/arm", "arm pattern not evaluable for code %d: %s" % (code, ex))
-                break
-            got = None
-            if sel is not None:
-                idx = find_all(sel["body"], lambda x: x.get("k") == "index" and x["e"].get("p") == "COLORS")
-                if idx:
-                    body = sel["body"]
-                    role = None
-                    if body.get("k") == "assign" and body["l"].get("k") == "field" and len(idx) == 1:
-                        role = body["l"]["name"]
-                        rhs = body["r"]
-                        if not (rhs.get("k") == "call" and rhs["f"].get("p") == "Some" and rhs["args"][0] is idx[0]):
-                            role = None
-                    try:
-                        from ..consteval import Frame
-                        iv = it.eval(idx[0]["i"], Frame(dict(binds), None, DEC))
-                    except Unsupported as ex:
-                        iv = "not evaluable (%s)" % ex
-                    got = (role, iv)
+            if by_eval is not None:
+                got = by_eval[code]
+            else:
+                sel = None
+                binds = {}
+                try:
+                    for arm in mt["arms"]:
+                        binds = {}
+                        if arm.get("guard") is None and it.match_pat(arm["pat"], some(code), binds):
+                            sel = arm
+                            break
+                        if arm.get("guard") is not None:
+                            raise Unsupported("guarded arm")
+                except Unsupported as ex:
+                    ctx.anchor("T3-NAMED", "decoder::sgr_face/arm", "arm pattern not evaluable for code %d: %s" % (code, ex))
+                    break
+                got = None
+                if sel is not None:
+                    idx = find_all(sel["body"], lambda x: x.get("k") == "index" and x["e"].get("p") == "COLORS")
+                    if idx:
+                        body = sel["body"]
+                        role = None
+                        if body.get("k") == "assign" and body["l"].get("k") == "field" and len(idx) == 1:
+                            role = body["l"]["name"]
+                            rhs = body["r"]
+                            if not (rhs.get("k") == "call" and rhs["f"].get("p") == "Some" and rhs["args"][0] is idx[0]):
+                                role = None
+                        try:
+                            iv = it.eval(idx[0]["i"], Frame(dict(binds), None, DEC))
+                        except Unsupported as ex:
+                            iv = "not evaluable (%s)" % ex
+                        got = (role, iv)
             exp = want.get(code)
             if exp is not None:
                 ctx.instance("T3-NAMED", {"code": code, "selected": got, "reference": exp, "ok": got == exp})
                 if got != exp:
                     ctx.violation("T3-NAMED", "decoder::sgr_face", "code-%d" % code,
-                                  "SGR %d must set %s to palette colour %d (COLORS[%d]); the selected arm gives %s — `ESC[%dm` decodes to the wrong colour" % (
+                                  "SGR %d must set %s to palette colour %d (COLORS[%d]); the decoder gives %s — `ESC[%dm` decodes to the wrong colour" % (
                                       code, exp[0], exp[1], exp[1], "no named colour" if got is None else "%s = COLORS[%s]" % got, code), sites=site)
             elif got is not None:
-                ctx.violation("T3-NAMED", "decoder::sgr_face", "code-%d" % code, "SGR %d is not a named-colour code but its arm reads COLORS[%s] into %s" % (code, got[1], got[0]), sites=site)
+                ctx.violation("T3-NAMED", "decoder::sgr_face", "code-%d" % code, "SGR %d is not a named-colour code but it sets %s to COLORS[%s]" % (code, got[0], got[1]), sites=site)
 
-    # ---- the indexed branch of sgr_color ---------------------------------------------------------------------------
+    # ---- the indexed form 38;5;n: sgr_color evaluated as a whole for every index (whichever way its branches are written) ----
     lay = ref["layout"]
     sc = src.fn("sgr_color", file=DEC)
-    body_if = None
-    idx_name = None
-    if sc is not None:
-        ifs = [n for n in find_all(sc[1]["body"], lambda n: n.get("k") == "if" and n["cond"].get("k") == "bin" and n["cond"]["op"] == "<"
-                                   and n["cond"]["l"].get("k") == "path" and lit_int(n["cond"]["r"]) == lay["system_count"])]
-        if len(ifs) == 1:
-            body_if = ifs[0]
-            idx_name = ifs[0]["cond"]["l"]["p"]
-    if body_if is None or colors is None or "CUBE" not in tables or "GREYS" not in tables:
+    if sc is None or colors is None or "CUBE" not in tables or "GREYS" not in tables:
         ctx.anchor("T3-PALETTE", "decoder::sgr_color/indexed-branch")
     else:
-        from ..consteval import Frame
-        site = ["%s:%d" % (DEC, body_if["line"])]
+        site = ["%s:%d" % (DEC, sc[1]["line"])]
         cube, greys = ref["cube_levels"]["values"], ref["grey_levels"]["values"]
+        sel = list(str(ref["sgr_colour_params"]["selector_indexed"]).encode())
+
+        def decode(n):
+            return it.call_item(sc[1], None, [[list(sel), list(str(n).encode())]], DEC, memo=False)
         for n in range(lay["palette_size"]):
             if n < lay["system_count"]:
                 exp = some(("RGBA",) + colors[n])
@@ -706,9 +856,11 @@ def t3(ctx, it):
                 gv = greys[n - lay["grey_base"]]
                 exp = some(("RGBA", gv, gv, gv, 255))
             try:
-                got = it.eval(body_if, Frame({idx_name: n}, None, DEC))
+                got = decode(n)
+            except Panic as ex:
+                got = "panic (%s)" % ex
             except Unsupported as ex:
-                ctx.anchor("T3-PALETTE", "decoder::sgr_color/eval", "indexed branch not evaluable for %d: %s" % (n, ex))
+                ctx.anchor("T3-PALETTE", "decoder::sgr_color/eval", "sgr_color not evaluable for 38;5;%d: %s" % (n, ex))
                 break
             ctx.instance("T3-PALETTE", {"index": n, "rgba": list(got[1][1:]) if isinstance(got, tuple) and len(got) == 2 and isinstance(got[1], tuple) else repr(got), "ok": got == exp})
             if got != exp:
@@ -716,7 +868,7 @@ def t3(ctx, it):
                 ctx.violation("T3-PALETTE", "decoder::sgr_color", "%s-index" % kind,
                               "`ESC[38;5;%dm` decodes to %r, the palette colour is %r" % (n, got, exp), sites=site)
         try:
-            over = it.eval(body_if, Frame({idx_name: lay["palette_size"]}, None, DEC))
+            over = decode(lay["palette_size"])
         except Unsupported:
             over = "?"
         if over != NONE:
@@ -802,7 +954,27 @@ def t4(ctx, it, consts):
     kd = src.fn("decode", impl_self=r"^KittyKeyboardMatcher$")
     ok = False
     what = None
+    evaluated = False
     if kd is not None:
+        # (1) the value: decode evaluated as a whole on `ESC[97;<v>u` for every modifier value 1..=256 and without the field
+        try:
+            bad = None
+            for v in [None] + list(range(1, 257)):
+                data = list(("\x1b[97u" if v is None else "\x1b[97;%du" % v).encode())
+                got = it.call_item(kd[1], "KittyKeyboardMatcher", [None, data], DEC, memo=False)
+                if not (isinstance(got, tuple) and got[:1] == ("Some",) and isinstance(got[1], tuple) and got[1][0] == "TerminalEvent::Key" and isinstance(got[1][1], StructV)):
+                    raise Unsupported("decode(`ESC[97;%su`) = %r" % (v, got))
+                bits = _bits(got[1][1].fields["mode"])
+                want_bits = 0 if v is None else _bits(it.call("KeyMod", "from_bits", [v - 1]))
+                if bits != want_bits and bad is None:
+                    bad = (v, bits, want_bits)
+            evaluated = True
+            ok = bad is None
+            what = "value - 1 (evaluated for 1..=256)" if ok else "`ESC[97;%su` carries modifier bits %d, expected %d" % bad
+        except (Unsupported, KeyError, AttributeError, TypeError) as ex:
+            ctx.note("T4-KITTY-MODS: KittyKeyboardMatcher::decode is not evaluable as a whole (%s): the from_bits call is read instead" % ex)
+    if kd is not None and not evaluated:
+        # (2) fallback, the shape: the innermost match arm holding KeyMod::from_bits
         arms = [a for m in find_all(kd[1]["body"], lambda n: n.get("k") == "match") for a in m["arms"]
                 if find_all(a["body"], lambda x: x.get("k") == "call" and x["f"].get("p") == "KeyMod::from_bits")]
         arms = [a for a in arms if not any(b is not a and find_all(a["body"], lambda x, b=b: x is b["body"]) for b in arms)]      # innermost
@@ -816,7 +988,6 @@ def t4(ctx, it, consts):
             what = expr_text(call["args"][0])
             if var is not None:
                 try:
-                    from ..consteval import Frame
                     vals = [(v, it.eval(call["args"][0], Frame({var: v}, None, DEC))) for v in (1, 2, 3, 5, 9, 17, 33, 65, 129, 256)]
                     ok = all(r == v - 1 for v, r in vals)
                     # values for which the arm is not taken must mean "no modifier": guard is `var > 1` or absent
@@ -840,33 +1011,125 @@ def _contains_path(e, name):
     return bool(find_all(e, lambda n: n.get("k") == "path" and n.get("p") == name))
 
 
-def _bitexpr_roots(node, name):
-    """maximal sub-expressions made of bit operators / casts / parens that mention `name`; plus the count of mentions outside any"""
-    roots = []
-    outside = [0]
+def _strip_refs(e):
+    while isinstance(e, dict) and (e.get("k") == "ref" or (e.get("k") == "un" and e.get("op") == "*")):
+        e = e["e"]
+    return e
 
-    def is_bit(n):
-        return (n.get("k") == "bin" and n["op"] in _BITOPS) or n.get("k") in ("cast", "paren")
 
-    def rec(n, in_root):
-        if isinstance(n, list):
-            for x in n:
-                rec(x, in_root)
-            return
-        if not isinstance(n, dict):
-            return
-        if "k" in n:
-            if n["k"] == "path" and n.get("p") == name and not in_root:
-                outside[0] += 1
-            if not in_root and is_bit(n) and _contains_path(n, name):
-                roots.append(n)
-                in_root = True
-        for k, v in n.items():
-            if k in ("line", "tokens"):
-                continue
-            rec(v, in_root)
-    rec(node, False)
-    return roots, outside[0]
+def _is_bitnode(n):
+    return (n.get("k") == "bin" and n["op"] in _BITOPS) or n.get("k") == "cast"
+
+
+class _BitScan:
+    """Where does a value (the SGR button value) go?  Walks a function body and, through plain argument passing, the bodies of the
+    crate-local helpers it is handed to; plain copies (`let x = v;`) are the same value.  Collects
+      roots      maximal shift/mask/cast expressions over the value, with their bit provenance (they bound the bits looked at),
+      outside    uses that are none of the above (the value escapes: its influence cannot be bounded),
+      calls      calls of `want_call` (path) seen in any visited scope, with the environment of that scope."""
+
+    def __init__(self, src, file, impl_self, want_call, max_depth=3):
+        self.src, self.file, self.impl_self, self.want_call, self.max_depth = src, file, impl_self, want_call, max_depth
+        self.roots, self.outside, self.calls, self.problems = [], [], [], []
+        self.visited = set()
+
+    def callee(self, n):
+        """(fn item, index of the first explicit argument) of a call / method call on self to a function of the same file"""
+        if n.get("k") == "call" and n["f"].get("k") == "path":
+            p = n["f"]["p"]
+            segs = p.split("::")
+            if len(segs) == 1:
+                c = [item for (f, s_, tr, item, t) in self.src.fns if not t and f == self.file and s_ is None and item["name"] == p]
+                return (c[0], 0) if len(c) == 1 else None
+            if len(segs) == 2 and segs[0] in ("Self", self.impl_self) and self.impl_self:
+                r = self.src.fn(segs[1], impl_self="^%s$" % re.escape(self.impl_self), file=self.file)
+                if r is not None:
+                    return r[1], 0
+            return None
+        if n.get("k") == "mcall" and _strip_refs(n["recv"]).get("p") == "self" and self.impl_self:
+            r = self.src.fn(n["m"], impl_self="^%s$" % re.escape(self.impl_self), file=self.file)
+            if r is not None and r[1]["sig"]["inputs"] and r[1]["sig"]["inputs"][0]["name"] == "self":
+                return r[1], 1
+        return None
+
+    def scan(self, nodes, env, depth=0):
+        env = dict(env)
+        alias_lets = set()
+        # plain copies of a tracked value are the same value
+        changed = True
+        while changed:
+            changed = False
+            for st in find_all(nodes, lambda n: n.get("k") == "let" and n.get("init") is not None):
+                init = _strip_refs(st["init"])
+                if st["pat"].get("k") == "ident" and init.get("k") == "path" and init["p"] in env and st["pat"]["name"] not in env:
+                    env[st["pat"]["name"]] = env[init["p"]]
+                    alias_lets.add(id(st))
+                    changed = True
+
+        def mentions(n):
+            return bool(find_all(n, lambda x: x.get("k") == "path" and x.get("p") in env))
+
+        def rec(n, in_root):
+            if isinstance(n, list):
+                for x in n:
+                    rec(x, in_root)
+                return
+            if not isinstance(n, dict):
+                return
+            k = n.get("k")
+            if k == "let" and id(n) in alias_lets:
+                return
+            if k in ("call", "mcall") and not in_root:
+                c = self.callee(n)
+                if c is not None:
+                    item, first = c
+                    params = item["sig"]["inputs"][first:]
+                    args = n.get("args") or []
+                    sub_env = {}
+                    for prm, a in zip(params, args):
+                        a0 = _strip_refs(a)
+                        pn = prm.get("pat", {}).get("name") if prm.get("pat", {}).get("k") == "ident" else None
+                        if a0.get("k") == "path" and a0["p"] in env:
+                            if pn is None:
+                                self.outside.append(expr_text(n))
+                            else:
+                                sub_env[pn] = env[a0["p"]]
+                        elif _is_bitnode(a0) and mentions(a0):
+                            try:
+                                pv = bf.provenance(a0, env)
+                                self.roots.append((a0, pv))
+                                if pn is not None:
+                                    sub_env[pn] = pv
+                            except bf.BitflowError as ex:
+                                self.problems.append(str(ex))
+                        else:
+                            rec(a, False)
+                    if k == "mcall":
+                        rec(n["recv"], False)
+                    if sub_env:
+                        key = (id(item), tuple(sorted((kk, tuple(map(str, vv)) if isinstance(vv, list) else str(vv)) for kk, vv in sub_env.items())))
+                        if depth >= self.max_depth:
+                            self.outside.append(expr_text(n) + " (helper nesting too deep)")
+                        elif key not in self.visited:
+                            self.visited.add(key)
+                            self.scan(item["body"], sub_env, depth + 1)
+                    return
+            if k == "call" and n["f"].get("k") == "path" and n["f"]["p"] == self.want_call:
+                self.calls.append((n, env))
+            if "k" in n:
+                if k == "path" and n.get("p") in env and not in_root:
+                    self.outside.append(n["p"])
+                if not in_root and _is_bitnode(n) and mentions(n):
+                    try:
+                        self.roots.append((n, bf.provenance(n, env)))
+                    except bf.BitflowError as ex:
+                        self.problems.append(str(ex))
+                    in_root = True
+            for kk, v in n.items():
+                if kk in ("line", "tokens"):
+                    continue
+                rec(v, in_root)
+        rec(nodes, False)
 
 
 def t5_mouse(ctx, it, consts):
@@ -884,44 +1147,55 @@ def t5_mouse(ctx, it, consts):
     site = ["%s:%d" % (DEC, md[1]["line"])]
     # the variable bound to the first number of the payload
     ev = None
+    rest = []
     for st in body["stmts"]:
-        if st["k"] == "let" and st.get("init") is not None and st["pat"].get("k") == "ident":
-            i = st["init"]
-            if i.get("k") == "try" and i["e"].get("k") == "mcall" and i["e"]["m"] == "next":
-                ev = st["pat"]["name"]
-                ev_stmt = st
-                break
+        pairs = []
+        if st["k"] == "let" and st.get("init") is not None:
+            if st["pat"].get("k") == "ident":
+                pairs = [(st["pat"], st["init"])]
+            elif st["pat"].get("k") == "tuple" and st["init"].get("k") == "tuple" and len(st["pat"]["elems"]) == len(st["init"]["elems"]):
+                pairs = list(zip(st["pat"]["elems"], st["init"]["elems"]))         # let (event, col, row) = (nums.next()?, ..)
+        hit = None
+        if ev is None:
+            for pt, i in pairs:
+                if pt.get("k") == "ident" and i.get("k") == "try" and i["e"].get("k") == "mcall" and i["e"]["m"] == "next":
+                    hit = (pt, i)
+                    break
+        if hit is not None:
+            ev = hit[0]["name"]
+            rest += [i for pt, i in pairs if i is not hit[1]]
+        else:
+            rest.append(st)
     if ev is None:
         ctx.anchor("T5-MOUSE-BITS", where + "/first-number")
         return
-    rest = [st for st in body["stmts"] if st is not ev_stmt]
-    roots, outside = _bitexpr_roots(rest, ev)
     env = {ev: bf.sym("b", 64)}
-    support = set()
-    provs = []
-    try:
-        for r in roots:
-            p = bf.provenance(r, env)
-            provs.append((r, p))
-            support |= {i for (s, i) in bf.support(p)}
-    except bf.BitflowError as ex:
-        ctx.anchor("T5-MOUSE-BITS", where + "/bit-expression", "bit expression over the button value not understood: %s" % ex)
+    scan = _BitScan(src, DEC, "MouseEventMatcher", "KeyMod::from_bits")
+    scan.scan(rest, env)
+    if scan.problems:
+        ctx.anchor("T5-MOUSE-BITS", where + "/bit-expression", "bit expression over the button value not understood: %s" % scan.problems[0])
         return
+    roots = [r for r, p in scan.roots]
+    support = set()
+    for r, p in scan.roots:
+        support |= {i for (s_, i) in bf.support(p)}
+    outside = len(scan.outside)
     ok_uses = outside == 0 and bool(roots)
     ctx.instance("T5-MOUSE-BITS", {"button_value_variable": ev, "bit_expressions": [expr_text(r) for r in roots], "other_uses": outside, "bits_used": sorted(support), "ok": ok_uses})
     if not ok_uses:
-        ctx.violation("T5-MOUSE-BITS", where, "button-value-use", "the button value is used outside shift/mask expressions (%d uses): the set of bits it depends on cannot be bounded" % outside, sites=site)
+        ctx.violation("T5-MOUSE-BITS", where, "button-value-use", "the button value is used outside shift/mask expressions (%d uses: %s): the set of bits it depends on cannot be bounded" % (
+            outside, ", ".join(scan.outside[:4])), sites=site)
         return
     known = {0, 1} | {m.bit_length() - 1 for m in bv["modifiers"].values()} | {bv["wheel"].bit_length() - 1, bv["motion"].bit_length() - 1}
     if not support <= known:
         ctx.violation("T5-MOUSE-BITS", where, "unknown-bits", "the decoder looks at bits %s of the button value which have no meaning in the SGR layout" % sorted(support - known), sites=site)
     # modifiers: argument of KeyMod::from_bits
-    calls = find_all(body, lambda n: n.get("k") == "call" and n["f"].get("p") == "KeyMod::from_bits")
+    calls = [c for c, e_ in scan.calls]
     if len(calls) != 1:
         ctx.anchor("T5-MOUSE-BITS", where + "/from_bits")
     else:
         try:
-            p = bf.provenance(calls[0]["args"][0], env)
+            p = bf.provenance(calls[0]["args"][0], scan.calls[0][1])
             allbits = consts.get("ALL", 0)
             p = [x if (allbits >> i) & 1 else 0 for i, x in enumerate(p)]       # from_bits masks with KeyMod::ALL (T1-KEYMOD checks from_bits)
             for name, mask in sorted(bv["modifiers"].items(), key=lambda kv: kv[1]):
@@ -1061,57 +1335,35 @@ def t5_utf8(ctx):
     if not classes:
         ctx.anchor("T5-UTF8", "utf8-grammars")
         return
-    stmts = fn[1]["body"]["stmts"]
-    param = fn[1]["sig"]["inputs"][0]["pat"].get("name") if fn[1]["sig"]["inputs"] else None
-    mt = [st for st in stmts if st["k"] == "let" and st.get("init") is not None and st["init"].get("k") == "match"
-          and st["init"]["e"].get("k") == "mcall" and st["init"]["e"]["m"] == "len" and st["init"]["e"]["recv"].get("p") == param]
-    loops = [st["e"] for st in stmts if st["k"] == "expr" and st["e"].get("k") == "for"]
-    tail = stmts[-1] if stmts and stmts[-1]["k"] == "expr" and not stmts[-1].get("semi") else None
-    if len(mt) != 1 or len(loops) != 1 or tail is None or mt[0]["pat"].get("k") != "ident":
-        ctx.anchor("T5-UTF8", where + "/shape", "utf8_decode is not `let code = match slice.len() {..}; for byte in slice[1..] {..}; <code -> char>`")
-        return
-    code = mt[0]["pat"]["name"]
-    loop = loops[0]
-    it_ok = (loop["iter"].get("k") == "mcall" and loop["iter"]["m"] == "iter" and loop["iter"]["recv"].get("k") == "index"
-             and loop["iter"]["recv"]["e"].get("p") == param and loop["iter"]["recv"]["i"].get("k") == "range"
-             and lit_int(loop["iter"]["recv"]["i"].get("lo") or {}) == 1 and loop["iter"]["recv"]["i"].get("hi") is None
-             and loop["pat"].get("k") == "ident")
-    if not it_ok:
-        ctx.anchor("T5-UTF8", where + "/loop", "the continuation loop does not iterate slice[1..] in order")
-        return
-    byte = loop["pat"]["name"]
-    conv = find_all(tail["e"], lambda n: n.get("k") == "call" and n["f"].get("p") in ("char::from_u32", "std::char::from_u32", "char::from_u32_unchecked"))
-    conv_ok = len(conv) == 1 and len(conv[0]["args"]) == 1 and conv[0]["args"][0].get("p") == code
-    if not conv_ok:
-        ctx.violation("T5-UTF8", where, "conversion", "the assembled code is not handed unchanged to char::from_u32", sites=site)
-    pre = [st for st in stmts if st is not mt[0] and st["k"] == "let"]
+    # utf8_decode evaluated on one symbolic byte per position (bits fixed by the byte class are constants): whichever way the
+    # assembly is written (loop, fold, unrolled, helper), every bit of the result is a constant or one input bit
+    bit = _bit_interp(src)
     for L in sorted(classes):
-        arms = [a for a in mt[0]["init"]["arms"] if a["pat"].get("k") == "lit" and lit_int(a["pat"]["e"]) == L]
         exp_lead = RFC3629["lead_payload_bits"].get(L)
-        if exp_lead is None or len(arms) != 1:
+        if exp_lead is None:
             ctx.instance("T5-UTF8", {"length": L, "ok": False})
-            ctx.violation("T5-UTF8", where, "length-%d" % L, "the grammars admit %d-byte characters but utf8_decode has no arm for that length (RFC 3629 defines 1..4)" % L, sites=site)
+            ctx.violation("T5-UTF8", where, "length-%d" % L, "the grammars admit %d-byte characters but RFC 3629 defines 1..4 bytes" % L, sites=site)
             continue
-        env = {"%s[0]" % param: _class_sym("b0", classes[L][0], 8)}
+        arg = [bf.Val(_class_sym("b%d" % i, classes[L][i], 8)) for i in range(L)]
         try:
-            for st in pre:
-                if stmts.index(st) < stmts.index(mt[0]):
-                    bf.bind_let(st, env)
-            cur = bf.provenance(arms[0]["body"], env, 32)
-            for i in range(1, L):
-                env[code] = cur
-                env[byte] = _class_sym("b%d" % i, classes[L][i], 8)
-                for st in loop["body"]["stmts"]:
-                    e = st.get("e") if st["k"] == "expr" else None
-                    if e is None or e.get("k") != "bin" or not e["op"].endswith("=") or e["op"] in ("==", "!=", "<=", ">=") or e["l"].get("p") != code:
-                        raise bf.BitflowError("loop statement %s" % expr_text(e) if e else "non-expression statement in the loop")
-                    env[code] = bf.provenance({"k": "bin", "op": e["op"][:-1], "l": e["l"], "r": e["r"], "line": e.get("line", 0)}, env, 32)
-                cur = env[code]
-        except bf.BitflowError as ex:
+            got = bit.call_item(fn[1], None, [arg], DEC, memo=False)
+        except Panic as ex:
+            ctx.instance("T5-UTF8", {"length": L, "ok": False, "problem": str(ex)})
+            ctx.violation("T5-UTF8", where, "length-%d" % L, "the grammars admit %d-byte characters but utf8_decode panics on that length (%s)" % (L, ex), sites=site)
+            continue
+        except _BitProblem as ex:
             ctx.instance("T5-UTF8", {"length": L, "ok": False, "problem": str(ex)})
             ctx.violation("T5-UTF8", where, "layout-%d" % L,
                           "%d-byte sequence: the code is not assembled as a pure bit layout of the input bytes (%s); RFC 3629: lead keeps %d bits, each continuation byte 6, shifted by 6" % (L, ex, exp_lead), sites=site)
             continue
+        except Unsupported as ex:
+            ctx.anchor("T5-UTF8", where + "/shape", "utf8_decode is not evaluable on a %d-byte sequence: %s" % (L, ex))
+            return
+        if not (isinstance(got, tuple) and len(got) == 2 and got[0] == "char" and isinstance(got[1], bf.Val)):
+            ctx.instance("T5-UTF8", {"length": L, "ok": False, "result": repr(got)[:80]})
+            ctx.violation("T5-UTF8", where, "conversion", "the assembled code is not handed unchanged to char::from_u32 (%d-byte sequence gives %r)" % (L, got), sites=site)
+            continue
+        cur = bf.zext(got[1].bits, 32)
         want = []
         for i in range(L - 1, 0, -1):
             want += _class_sym("b%d" % i, classes[L][i], 8)[:RFC3629["continuation_payload_bits"]]
@@ -1175,9 +1427,12 @@ def t6(ctx):
 # T7
 # =====================================================================================================================
 def _locals_in(x, out):
+    """locals read by a MIR fragment, as (local, index of the leading field projection or None)"""
     if isinstance(x, dict):
         if "l" in x and isinstance(x["l"], int) and ("p" in x or x.get("k") == "index"):
-            out.add(x["l"])
+            p = x.get("p") or []
+            fi = p[0].get("i") if p and isinstance(p[0], dict) and p[0].get("k") == "field" and isinstance(p[0].get("i"), int) else None
+            out.add((x["l"], fi))
         for k, v in x.items():
             if k not in ("line", "expk", "exp"):
                 _locals_in(v, out)
@@ -1187,24 +1442,28 @@ def _locals_in(x, out):
 
 
 def _feeders(b, operand):
-    """blocks of the Iterator::next calls whose result flows (through data dependences) into the operand; stops at those calls"""
+    """blocks of the Iterator::next calls whose result flows (through data dependences) into the operand; stops at those calls.
+    Field sensitive for tuples / structs built by one aggregate statement: `(a, b, c).1` depends on b only."""
     out = set()
     todo = set()
     _locals_in(operand, todo)
     seen = set()
     while todo:
-        l = todo.pop()
-        if l in seen:
+        l, fi = todo.pop()
+        if (l, fi) in seen:
             continue
-        seen.add(l)
+        seen.add((l, fi))
         if 0 < l <= b.arg_count:
             continue
-        for bb, si, rv in b.defs_of(l):
+        defs = b.defs_of(l)
+        for bb, si, rv in defs:
             if si == "term":
                 if call_matches(rv, NEXT_RX):
                     out.add(bb)
                     continue
                 _locals_in(rv.get("args", []), todo)
+            elif fi is not None and len(defs) == 1 and rv.get("k") == "agg" and not rv.get("is_enum") and rv.get("ak") in ("tuple", "adt") and fi < len(rv.get("fields") or []):
+                _locals_in(rv["fields"][fi], todo)
             else:
                 _locals_in(rv, todo)
     return out
@@ -1253,6 +1512,92 @@ T7_FORMS = {
 }
 
 
+def _t7_fields(c, name, path, b, specs):
+    """field order of one decode body (plain or with helpers inlined); reports into the recorder / context c"""
+    site = [b.loc]
+    ords = _next_ordinals(b)
+    if ords is None:
+        c.anchor("T7-FIELD-ORDER", path + "/next-order", "the next() calls on one iterator are not totally ordered by dominance")
+        return
+    form, count, front, back = T7_FORMS[name]
+    # numbers iterators: place -> (numbers_decode call, payload expr)
+    nd = {}
+    for bb, t in b.calls():
+        if call_matches(t, r"^decoder::numbers_decode$"):
+            dest = t["dest"]
+            if not dest["p"]:
+                nd["_%d" % dest["l"]] = (bb, t)
+    for place, (bb, t) in sorted(nd.items()):
+        pe = expr(b, t["args"][0])
+        sep = expr(b, t["args"][1])
+        m = re.match(r"^index::index\((?P<base>.*), Range\{start: (?P<s>\d+), end: Sub\(slice::len\((?P<base2>.*)\), (?P<e>\d+)\)\}\)$", pe)
+        ok = bool(m) and m.group("base") == m.group("base2") and int(m.group("s")) == front and int(m.group("e")) == back and sep == "59"
+        c.instance("T7-FIELD-ORDER", {"fn": path, "numbers_iterator": place, "payload": pe[:160], "separator": sep, "expected_slice": "[%d..len-%d]" % (front, back), "ok": ok})
+        if not ok:
+            c.violation("T7-FIELD-ORDER", path, "payload-slice",
+                          "numbers are parsed from %s split at %s; the documented form has %d bytes before the first and %d after the last number, separated by ';'" % (pe[:120], sep, front, back), sites=site)
+    aggs = []
+    for i, si, s in b.assigns():
+        rv = s["rv"]
+        if rv["k"] == "agg" and rv.get("ak") == "adt":
+            aggs.append((i, si, s))
+    # TermSize: which Size aggregate is `cells` / `pixels`, and which chunk feeds it
+    role_of = {}
+    if name == "TermSizeMatcher":
+        ts = [(i, si, s) for i, si, s in aggs if s["rv"]["adt"] == "terminal::TerminalSize"]
+        if len(ts) != 1:
+            c.anchor("T7-FIELD-ORDER", path + "/TerminalSize")
+            return
+        rv = ts[0][2]["rv"]
+        for fname, f in zip(rv["fnames"], rv["fields"]):
+            l = _bare(f)
+            d = _single_def(b, l) if l is not None else None
+            if d is not None and d[1] != "term":
+                role_of[(d[0], d[1])] = fname
+    used_specs = set()
+    for i, si, s in aggs:
+        rv = s["rv"]
+        for k, (adt, variant, fields, one_based, role) in enumerate(specs):
+            if rv["adt"] != adt or (variant is not None and rv.get("variant") != variant):
+                continue
+            if role is not None and role_of.get((i, si)) != role:
+                continue
+            if k in used_specs:
+                c.anchor("T7-FIELD-ORDER", path + "/two-aggregates-" + adt.split("::")[-1])
+                continue
+            used_specs.add(k)
+            for fname, f in zip(rv["fnames"], rv["fields"]):
+                if fname not in fields:
+                    continue
+                fb = _feeders(b, f)
+                got = sorted(ords.get(x, ("?", -1)) for x in fb)
+                label = "%s%s.%s" % (adt.split("::")[-1], ("::" + variant) if variant else "", fname) + ((" (" + role + ")") if role else "")
+                ok = len(got) == 1 and got[0][1] == fields[fname] and got[0][0] in nd
+                chunk_ok = True
+                chunk = None
+                if ok and name == "TermSizeMatcher":
+                    cb = _feeders(b, nd[got[0][0]][1]["args"][0])
+                    chunk = sorted(ords.get(x, ("?", -1))[1] for x in cb)
+                    chunk_ok = chunk == [{"cells": 1, "pixels": 2}[role]]
+                base_ok = True
+                if ok and one_based:
+                    base_ok = re.match(r"^num::checked_sub\(.*, 1\)@(Continue|Some)\.0$|^Sub\(.*, 1\)$", expr(b, f)) is not None
+                c.instance("T7-FIELD-ORDER", {"fn": path, "field": label, "fed_by_number": [g_[1] for g_ in got], "documented_number": fields[fname],
+                                                "chunk": chunk, "minus_one": base_ok if one_based else None, "ok": ok and chunk_ok and base_ok})
+                if not ok:
+                    c.violation("T7-FIELD-ORDER", path, "field-" + label.replace(" ", ""),
+                                  "%s must receive number #%d of the payload (%s) but is computed from number(s) %s" % (
+                                      label, fields[fname], "".join(p if p == "N" else (_bt(p) if isinstance(p, bytes) else "(M|m)") for p in form), [g_[1] for g_ in got]), sites=site)
+                elif not chunk_ok:
+                    c.violation("T7-FIELD-ORDER", path, "chunk-" + role, "%s must be read from the %s report (ESC-separated piece %d) but comes from piece %s" % (
+                        label, "`8;h;w t`" if role == "cells" else "`4;h;w t`", {"cells": 1, "pixels": 2}[role], chunk), sites=site)
+                elif not base_ok:
+                    c.violation("T7-FIELD-ORDER", path, "base-" + label.replace(" ", ""), "%s is a 1-based coordinate in the report and must be stored minus one; found %s" % (label, expr(b, f)[:80]), sites=site)
+    for k, (adt, variant, fields, one_based, role) in enumerate(specs):
+        if k not in used_specs:
+            c.anchor("T7-FIELD-ORDER", path + "/aggregate-" + adt.split("::")[-1] + ("-" + role if role else ""), "the aggregate %s built by %s was not found" % (adt, path))
+
+
 def t7(ctx):
     prog, src = ctx.prog, ctx.src
     xr = _ref("xterm_keys.json")
@@ -1290,92 +1635,22 @@ def t7(ctx):
     }
     for name, specs in want.items():
         path = "<decoder::%s as decoder::Matcher>::decode" % name
-        b = prog.body(path)
-        if b is None:
+        plain = prog.body(path)
+        if plain is None:
             ctx.anchor("T7-FIELD-ORDER", path)
             continue
-        site = [b.loc]
-        ords = _next_ordinals(b)
-        if ords is None:
-            ctx.anchor("T7-FIELD-ORDER", path + "/next-order", "the next() calls on one iterator are not totally ordered by dominance")
-            continue
-        form, count, front, back = T7_FORMS[name]
-        # numbers iterators: place -> (numbers_decode call, payload expr)
-        nd = {}
-        for bb, t in b.calls():
-            if call_matches(t, r"^decoder::numbers_decode$"):
-                dest = t["dest"]
-                if not dest["p"]:
-                    nd["_%d" % dest["l"]] = (bb, t)
-        for place, (bb, t) in sorted(nd.items()):
-            pe = expr(b, t["args"][0])
-            sep = expr(b, t["args"][1])
-            m = re.match(r"^index::index\((?P<base>.*), Range\{start: (?P<s>\d+), end: Sub\(slice::len\((?P<base2>.*)\), (?P<e>\d+)\)\}\)$", pe)
-            ok = bool(m) and m.group("base") == m.group("base2") and int(m.group("s")) == front and int(m.group("e")) == back and sep == "59"
-            ctx.instance("T7-FIELD-ORDER", {"fn": path, "numbers_iterator": place, "payload": pe[:160], "separator": sep, "expected_slice": "[%d..len-%d]" % (front, back), "ok": ok})
-            if not ok:
-                ctx.violation("T7-FIELD-ORDER", path, "payload-slice",
-                              "numbers are parsed from %s split at %s; the documented form has %d bytes before the first and %d after the last number, separated by ';'" % (pe[:120], sep, front, back), sites=site)
-        aggs = []
-        for i, si, s in b.assigns():
-            rv = s["rv"]
-            if rv["k"] == "agg" and rv.get("ak") == "adt":
-                aggs.append((i, si, s))
-        # TermSize: which Size aggregate is `cells` / `pixels`, and which chunk feeds it
-        role_of = {}
-        if name == "TermSizeMatcher":
-            ts = [(i, si, s) for i, si, s in aggs if s["rv"]["adt"] == "terminal::TerminalSize"]
-            if len(ts) != 1:
-                ctx.anchor("T7-FIELD-ORDER", path + "/TerminalSize")
-                continue
-            rv = ts[0][2]["rv"]
-            for fname, f in zip(rv["fnames"], rv["fields"]):
-                l = _bare(f)
-                d = _single_def(b, l) if l is not None else None
-                if d is not None and d[1] != "term":
-                    role_of[(d[0], d[1])] = fname
-        used_specs = set()
-        for i, si, s in aggs:
-            rv = s["rv"]
-            for k, (adt, variant, fields, one_based, role) in enumerate(specs):
-                if rv["adt"] != adt or (variant is not None and rv.get("variant") != variant):
-                    continue
-                if role is not None and role_of.get((i, si)) != role:
-                    continue
-                if k in used_specs:
-                    ctx.anchor("T7-FIELD-ORDER", path + "/two-aggregates-" + adt.split("::")[-1])
-                    continue
-                used_specs.add(k)
-                for fname, f in zip(rv["fnames"], rv["fields"]):
-                    if fname not in fields:
-                        continue
-                    fb = _feeders(b, f)
-                    got = sorted(ords.get(x, ("?", -1)) for x in fb)
-                    label = "%s%s.%s" % (adt.split("::")[-1], ("::" + variant) if variant else "", fname) + ((" (" + role + ")") if role else "")
-                    ok = len(got) == 1 and got[0][1] == fields[fname] and got[0][0] in nd
-                    chunk_ok = True
-                    chunk = None
-                    if ok and name == "TermSizeMatcher":
-                        cb = _feeders(b, nd[got[0][0]][1]["args"][0])
-                        chunk = sorted(ords.get(x, ("?", -1))[1] for x in cb)
-                        chunk_ok = chunk == [{"cells": 1, "pixels": 2}[role]]
-                    base_ok = True
-                    if ok and one_based:
-                        base_ok = re.match(r"^num::checked_sub\(.*, 1\)@(Continue|Some)\.0$|^Sub\(.*, 1\)$", expr(b, f)) is not None
-                    ctx.instance("T7-FIELD-ORDER", {"fn": path, "field": label, "fed_by_number": [g_[1] for g_ in got], "documented_number": fields[fname],
-                                                    "chunk": chunk, "minus_one": base_ok if one_based else None, "ok": ok and chunk_ok and base_ok})
-                    if not ok:
-                        ctx.violation("T7-FIELD-ORDER", path, "field-" + label.replace(" ", ""),
-                                      "%s must receive number #%d of the payload (%s) but is computed from number(s) %s" % (
-                                          label, fields[fname], "".join(p if p == "N" else (_bt(p) if isinstance(p, bytes) else "(M|m)") for p in form), [g_[1] for g_ in got]), sites=site)
-                    elif not chunk_ok:
-                        ctx.violation("T7-FIELD-ORDER", path, "chunk-" + role, "%s must be read from the %s report (ESC-separated piece %d) but comes from piece %s" % (
-                            label, "`8;h;w t`" if role == "cells" else "`4;h;w t`", {"cells": 1, "pixels": 2}[role], chunk), sites=site)
-                    elif not base_ok:
-                        ctx.violation("T7-FIELD-ORDER", path, "base-" + label.replace(" ", ""), "%s is a 1-based coordinate in the report and must be stored minus one; found %s" % (label, expr(b, f)[:80]), sites=site)
-        for k, (adt, variant, fields, one_based, role) in enumerate(specs):
-            if k not in used_specs:
-                ctx.anchor("T7-FIELD-ORDER", path + "/aggregate-" + adt.split("::")[-1] + ("-" + role if role else ""), "the aggregate %s built by %s was not found" % (adt, path))
+        # the function as written; when that does not satisfy the rule, the function with its small private single-caller helpers
+        # expanded in place (prog.inlined): extracting a helper does not change which number reaches which field
+        rec = _Recorder()
+        _t7_fields(rec, name, path, plain, specs)
+        if any(k in ("violation", "anchor") for k, a_, kw in rec.items):
+            inl = prog.inlined(path)
+            if inl is not None and inl is not plain:
+                rec2 = _Recorder()
+                _t7_fields(rec2, name, path, inl, specs)
+                if not any(k in ("violation", "anchor") for k, a_, kw in rec2.items):
+                    rec = rec2
+        rec.replay(ctx)
 
 
 # =====================================================================================================================
@@ -1387,24 +1662,30 @@ def t8_color(ctx, it):
     """parse_color's component conversion, evaluated over all 1-, 2-, 3-digit values and, for 4 digits, every high byte with the low bytes
     00 01 7f 80 fe ff: an n-digit component (n >= 2) yields its most significant 8 bits, one digit h yields hh — the convention of the
     12-bit arm, and the one that returns exactly the 8-bit value a terminal replicates into 16 bits"""
-    from ..consteval import Frame
     src = ctx.src
     ctx.rule("T8-COLOR-COMPONENT", "parse_color: an n-digit hex component yields its most significant 8 bits (n = 2, 3, 4) resp. hh for a single digit h; "
-                                   "0 and 5+ digits are rejected", floor=4)
+                                   "0 and 5+ digits are rejected; the three components fill red, green, blue in order", floor=5)
     r = src.fn("parse_color", file=DEC)
-    items = [x["item"] for x in (r[1]["body"]["stmts"] if r else []) if x.get("k") == "item" and x["item"].get("name") == "parse_component"]
-    if len(items) != 1:
+    if r is None:
         ctx.anchor("T8-COLOR-COMPONENT", "decoder::parse_color/parse_component")
         return
-    item = items[0]
+    item = r[1]
     site = ["%s:%d" % (DEC, item["line"])]
-    it.extern_fns["usize::from_str_radix"] = lambda a: EnumOk(int(a[0], a[1])) if re.fullmatch(r"[0-9a-fA-F]+", a[0]) else EnumErr()
-    it.extern_methods["len"] = lambda recv, args: len(recv) if isinstance(recv, (str, list, tuple)) else _unsup("len on %r" % type(recv).__name__)
-    it.extern_methods["clamp"] = lambda recv, args: min(max(recv, args[0]), args[1])
-    it.extern_methods["ok"] = lambda recv, args: some(recv.value) if isinstance(recv, EnumOk) else NONE
+    ctx.trust("RGBA::from_str", "parse_color first tries rasterize's `str::parse::<RGBA>` which accepts only `#hex` and SVG colour names (read once in rasterize-0.6.9/src/color.rs): an `rgb:` string falls through")
+    it.extern_fns["usize::from_str_radix"] = lambda a: ("Ok", int(a[0], a[1])) if isinstance(a[0], str) and re.fullmatch(r"[0-9a-fA-F]+", a[0]) and a[1] == 16 else ("Err", "ParseIntError")
+    for ty in ("u8", "u16", "u32", "u64"):
+        it.extern_fns[ty + "::from_str_radix"] = (lambda bits: lambda a: ("Ok", int(a[0], a[1])) if isinstance(a[0], str) and re.fullmatch(r"[0-9a-fA-F]+", a[0]) and a[1] == 16
+                                                   and int(a[0], 16) < (1 << bits) else ("Err", "ParseIntError"))(int(ty[1:]))
+    it.extern_methods["parse"] = lambda recv, args: ("Err", "ColorError") if isinstance(recv, str) and recv.startswith("rgb:") else _unsup("str::parse of %r" % (recv,))
 
     def ev(text):
-        return it.call_item(item, None, [text], file=DEC, memo=False)
+        got = it.call_item(item, None, ["rgb:%s/%s/%s" % (text, text, text)], file=DEC, memo=False)
+        if got == NONE:
+            return NONE
+        if isinstance(got, tuple) and len(got) == 2 and got[0] == "Some" and isinstance(got[1], tuple) and len(got[1]) == 5 and got[1][0] == "RGBA" \
+                and got[1][1] == got[1][2] == got[1][3] and got[1][4] == 255:
+            return some(got[1][1])
+        return got
 
     for n in (1, 2, 3, 4):
         if n < 4:
@@ -1423,7 +1704,7 @@ def t8_color(ctx, it):
                     bad = (text, got, want)
                     break
         except Unsupported as ex:
-            ctx.anchor("T8-COLOR-COMPONENT", "decoder::parse_color/eval", "parse_component not evaluable for %d digits: %s" % (n, ex))
+            ctx.anchor("T8-COLOR-COMPONENT", "decoder::parse_color/eval", "parse_color not evaluable for %d-digit components: %s" % (n, ex))
             return
         ctx.instance("T8-COLOR-COMPONENT", {"digits": n, "values_evaluated": cnt, "first_mismatch": None if bad is None else "%s -> %r, expected %r" % bad})
         if bad is not None:
@@ -1434,19 +1715,18 @@ def t8_color(ctx, it):
         try:
             got = ev(text)
         except Unsupported as ex:
-            ctx.anchor("T8-COLOR-COMPONENT", "decoder::parse_color/eval", "parse_component not evaluable for %r: %s" % (text, ex))
+            ctx.anchor("T8-COLOR-COMPONENT", "decoder::parse_color/eval", "parse_color not evaluable for %r: %s" % (text, ex))
             return
         if got != NONE:
             ctx.violation("T8-COLOR-COMPONENT", "decoder::parse_color", "digits-%d" % len(text), "a component with %d digits is accepted (%r)" % (len(text), got), sites=site)
-
-
-class EnumOk:
-    def __init__(self, value):
-        self.value = value
-
-
-class EnumErr:
-    pass
+    try:
+        got = it.call_item(item, None, ["rgb:12/345/6789"], file=DEC, memo=False)
+    except Unsupported as ex:
+        got = "not evaluable (%s)" % ex
+    ok = got == some(("RGBA", 0x12, 0x34, 0x67, 255))
+    ctx.instance("T8-COLOR-COMPONENT", {"input": "rgb:12/345/6789", "decoded": repr(got), "channels_in_order_red_green_blue_opaque": ok})
+    if not ok:
+        ctx.violation("T8-COLOR-COMPONENT", "decoder::parse_color", "channel-order", "`rgb:12/345/6789` must decode to RGBA(0x12, 0x34, 0x67, 255) (red/green/blue in order, opaque); got %r" % (got,), sites=site)
 
 
 def run(ctx):
@@ -1462,7 +1742,7 @@ def run(ctx):
         "are copied unchanged for every value (number_decode, iterator plumbing and overflow behaviour are value-level: C02 covers their safety), "
         "the rest of the payloads of OSC colour / termcap / kitty image / device attribute / bracketed paste reports, and the decoder loop itself (C03).")
     ctx.assume("a reference row constrains only byte strings / codes the repository also maps; the wheel direction names are the library's own (its test pins 65 -> MouseWheelUp)")
-    ctx.trust("numbers_decode-model", "T5's enumeration models numbers_decode as: split at the separator, keep the pieces that are decimal numbers, in order (C02 checks number_decode itself)")
+    ctx.trust("numbers_decode-model", "the evaluations model numbers_decode as: split at the separator, keep the pieces that are decimal numbers, in order, and number_decode as the decimal value of an all-digit string (C02 checks number_decode itself)")
     ctx.trust("sa/grammar.py fold", "the key table and grammars are the denotation of decoder.rs computed by sa.grammar (validated by C15's rules)")
     it = _interp(ctx.src)
     try:
@@ -1471,7 +1751,7 @@ def run(ctx):
         ctx.rule("T1-KEYMOD", "KeyMod constants", floor=1)
         ctx.anchor("T1-KEYMOD", "keys::KeyMod/constants", "KeyMod's constants not evaluable: %s" % ex)
         consts = {}
-    parts = [("T1", lambda: t1(ctx, it, consts)), ("T2", lambda: t2(ctx)), ("T3", lambda: t3(ctx, it)), ("T4", lambda: t4(ctx, it, consts)),
+    parts = [("T1", lambda: t1(ctx, it, consts)), ("T2", lambda: t2(ctx, it)), ("T3", lambda: t3(ctx, it)), ("T4", lambda: t4(ctx, it, consts)),
              ("T5-MOUSE", lambda: t5_mouse(ctx, it, consts)), ("T5-UTF8", lambda: t5_utf8(ctx)), ("T6", lambda: t6(ctx)), ("T7", lambda: t7(ctx)), ("T8", lambda: t8_color(ctx, it))]
     for name, fn in parts:
         try:
